@@ -4,6 +4,8 @@ import (
 	"encoding/json"
 	"math"
 	"sort"
+	"strconv"
+	"strings"
 
 	"github.com/trajectoryjp/spatial_id_go/v4/common/object"
 	"pgregory.net/rapid"
@@ -346,6 +348,76 @@ func trunc(ss []string, n int) []string {
 		return ss[:n]
 	}
 	return ss
+}
+
+// spellInt renders an integer in one of the spellings strconv.ParseInt accepts: canonical, with a leading '+',
+// with leading zeros, or "-0" for zero. sel selects the variant (0..4 canonical).
+func spellInt(v int64, sel uint64) string {
+	c := strconv.FormatInt(v, 10)
+	switch sel % 8 {
+	case 5:
+		if v >= 0 {
+			return "+" + c
+		}
+	case 6:
+		if v >= 0 {
+			return "00" + c
+		}
+		return "-0" + c[1:]
+	case 7:
+		if v == 0 {
+			return "-0"
+		}
+	}
+	return c
+}
+
+// spellMix is a small deterministic mixer (the spelling of field j of entry i under seed s).
+func spellMix(s int64, i, j int) uint64 {
+	if s == 0 {
+		return 0
+	}
+	x := uint64(s)*0x9E3779B97F4A7C15 + uint64(i)*0xBF58476D1CE4E5B9 + uint64(j)*0x94D049BB133111EB
+	x ^= x >> 31
+	x *= 0xD6E8FEB86659FD93
+	x ^= x >> 29
+	return x
+}
+
+// spelledExt renders boxes in the extended notation with (possibly non-canonical) integer spellings.
+func spelledExt(bs []ref.Box, seed int64) []string {
+	out := make([]string, len(bs))
+	for i, b := range bs {
+		f := []int64{b.H, b.X, b.Y, b.V, b.F}
+		p := make([]string, 5)
+		for j := range f {
+			p[j] = spellInt(f[j], spellMix(seed, i, j))
+		}
+		out[i] = strings.Join(p, "/")
+	}
+	return out
+}
+
+// spelledSpatial renders boxes (H == V) in the z/f/x/y notation with (possibly non-canonical) spellings.
+func spelledSpatial(bs []ref.Box, seed int64) []string {
+	out := make([]string, len(bs))
+	for i, b := range bs {
+		f := []int64{b.H, b.F, b.X, b.Y}
+		p := make([]string, 4)
+		for j := range f {
+			p[j] = spellInt(f[j], spellMix(seed, i, j))
+		}
+		out[i] = strings.Join(p, "/")
+	}
+	return out
+}
+
+// genSpell draws a spelling seed: 0 (canonical) in 7 of 8 cases.
+func genSpell(t *rapid.T) int64 {
+	if rapid.IntRange(0, 7).Draw(t, "spelled") != 0 {
+		return 0
+	}
+	return rapid.Int64Range(1, 1<<40).Draw(t, "spell")
 }
 
 func jsonStr(v any) string {
